@@ -23,9 +23,78 @@ def doAddr (args : List String) : String :=
     | _, _, _ => "bad-op"
   | _ => "bad-op"
 
+def joinHex (ws : List Bytes) : String := if ws.isEmpty then "-" else ",".intercalate (ws.map showHex)
+
+def keyOp? : String → Option KeyOp
+  | "press" => some .press | "down" => some .down | "up" => some .up | _ => none
+
+/-- `key <press|down|up> <force_caps> <key.isupper()> <hex utf8 key>`: the writes of the model -/
+def doKey (args : List String) : String :=
+  match args with
+  | [op, fc, up, k] =>
+    match keyOp? op, parseBool? fc, parseBool? up, strOfHex k with
+    | some op, some fc, some up, some k =>
+      match keyOpWrites op fc up k.toList with
+      | some ws => "ok " ++ joinHex ws
+      | none => "err type"
+    | _, _, _, _ => "bad-op"
+  | _ => "bad-op"
+
+def parseElem (s : String) : Option Spec.KeyElem :=
+  match s.splitOn ":" with
+  | ["n", h] => (strOfHex h).map Spec.KeyElem.name
+  | ["c", n] => n.toNat?.map fun k => Spec.KeyElem.char (Char.ofNat k)
+  | _ => none
+
+def elemValid (chord : Bool) : Spec.KeyElem → Bool
+  | .name n => (Spec.x11.find? (·.1 == n)).isSome
+  | .char c => !chord || c != '-'
+
+/-- `speckey <op> <force_caps> <isupper> <elem>...`: the bytes the *specification* prescribes -/
+def doSpecKey (args : List String) : String :=
+  match args with
+  | op :: fc :: up :: elems =>
+    match keyOp? op, parseBool? fc, parseBool? up, elems.mapM parseElem with
+    | some op, some fc, some up, some es =>
+      if es.isEmpty || !(es.all (elemValid (es.length ≥ 2))) then "err type" else
+      let ks : Option (List Nat) :=
+        match es with
+        | [.char c] => if fc then some (Spec.capsKeys up c) else some [c.toNat]
+        | _ => es.mapM Spec.KeyElem.keysym
+      match ks with
+      | none => "err type"
+      | some ks =>
+        let evs := match op with
+          | .press => Spec.pressEvents ks | .down => Spec.downEvents ks | .up => Spec.upEvents ks
+        "ok " ++ joinHex (evs.map Spec.keyEventBytes)
+    | _, _, _, _ => "bad-op"
+  | _ => "bad-op"
+
+def parsePtrOp (s : String) : Option PtrOp :=
+  match s.splitOn ":" with
+  | ["m", x, y] => do some (.move (← x.toInt?) (← y.toInt?))
+  | ["d", b] => b.toNat?.map .down
+  | ["u", b] => b.toNat?.map .up
+  | ["c", b] => b.toNat?.map .click
+  | ["g", x, y, st] => do some (.drag (← x.toInt?) (← y.toInt?) (← st.toNat?))
+  | _ => none
+
+/-- `ptr <op>...`: events `x:y:mask` of the model from the initial state -/
+def doPtr (args : List String) : String :=
+  match args.mapM parsePtrOp with
+  | some ops =>
+    let evs := (ptrRun PtrSt.init ops).2
+    match evs.mapM ptrEvBytes with
+    | some ws => "ok " ++ joinHex ws
+    | none => "err struct"
+  | none => "bad-op"
+
 def handle (line : String) : String :=
   match (line.splitOn " ").filter (· ≠ "") with
   | "addr" :: args => doAddr args
+  | "key" :: args => doKey args
+  | "speckey" :: args => doSpecKey args
+  | "ptr" :: args => doPtr args
   | _ => "bad-op"
 
 partial def loop (h : IO.FS.Stream) (out : IO.FS.Stream) : IO Unit := do
